@@ -4,6 +4,7 @@ Every external effect is a hook that only records an event; the evaluated code i
 import ast
 
 from ..consteval import EnumVal
+from ..index import ClassInfo
 from ..symeval import Obj, PureInterp, Raised, Unsupported, tok
 
 PROJ = tok("PROJ")
@@ -2408,7 +2409,7 @@ def touch_command_witness(ctx):
 RUN_PROJECT = {"A": [], "B": ["A"], "C": ["B"], "X": ["A"], "Gone": None}   # Gone: has logs but is no longer a target
 
 
-def eval_run_command(ctx, targets=(), dry_run=False, states=None, stale=(), config=None, fail_at=None, store_close_fails=False):
+def eval_run_command(ctx, targets=(), dry_run=False, states=None, stale=(), config=None, fail_at=None, store_close_fails=False, flags=None):
     """plugins.run:run with the backend, both stores, the file system and the log directory hooked.
 
     Returns {"events": [...], "raised": kind|None}; events: ("submit", name, [prereq names]), ("hash", name), ("rm-log", file), ("open-backend"),
@@ -2464,7 +2465,13 @@ def eval_run_command(ctx, targets=(), dry_run=False, states=None, stale=(), conf
     interp.max_depth = 40
     out = {"events": events, "raised": None}
     try:
-        call_command(ctx, interp, fn, (ctx_obj(ctx, working_dir="/p", config=cfg, backend="B"), tuple(targets), dry_run))
+        if flags:
+            names_ = fn.positional_params()
+            kw_ = {n_: v_ for n_, v_ in click_defaults(ctx, fn).items() if n_ in names_[3:]}
+            kw_.update(flags)
+            interp.call(fn, (ctx_obj(ctx, working_dir="/p", config=cfg, backend="B"), tuple(targets), dry_run), kw_)
+        else:
+            call_command(ctx, interp, fn, (ctx_obj(ctx, working_dir="/p", config=cfg, backend="B"), tuple(targets), dry_run))
     except Raised as exc:
         out["raised"] = exc.kind
         out["detail"] = exc.detail
@@ -2536,9 +2543,17 @@ def run_command_witness(ctx):
     if "close-backend" not in [e[0] for e in out["events"]]:
         diffs.append("when saving the spec hashes fails (OSError), the tracked-jobs file is not written either: every job accepted in this run is forgotten and submitted again next time")
     # the k-th submission is rejected: what was accepted before is saved, nothing after it is recorded
-    for k in (1, 2, 3):
-        out, err = eval_run_command(ctx, (), False, {}, set(deps), fail_at=k)
+    # ... with the command's own defaults, and with every further on/off option of the command switched on (an option such as --keep-going changes what happens after the
+    # rejection, not what the property demands of it)
+    run_fn = ctx.index.func("gwf.plugins.run:run")
+    more_flags = [n_ for n_, v_ in click_defaults(ctx, run_fn).items() if v_ is False and n_ in run_fn.positional_params()[3:]]
+    for k, fl in [(k_, None) for k_ in (1, 2, 3)] + [(k_, f_) for f_ in more_flags for k_ in (1, 2)]:
+        # history: the workflow ran before (every target has an old, finished job on record) and everything is stale again - so a prerequisite handed over after
+        # its submission was rejected would be translated to the id of that old job
+        out, err = eval_run_command(ctx, (), False, {n_: "COMPLETED" for n_ in deps}, set(deps), fail_at=k, flags={fl: True} if fl else None)
         if err:
+            if fl:
+                continue
             return n, diffs, err
         n += 1
         ev = out["events"]
@@ -2546,7 +2561,7 @@ def run_command_witness(ctx):
         acc = [e[1] for e in ev if e[0] == "submit"]
         hashes = [e[1] for e in ev if e[0] == "hash"]
         rej = [e[1] for e in ev if e[0] == "submit-rejected"]
-        what = f"`gwf run` with the scheduler rejecting submission #{k} ({rej[0] if rej else '?'})"
+        what = f"`gwf run{' --' + fl.replace('_', '-') if fl else ''}` with the scheduler rejecting submission #{k} ({rej[0] if rej else '?'})"
         # the failure is reported: the command ends with one of gwf's own errors (the rejection itself, or a summary raised later), not with success or a crash
         own_errors = {ci.name for ci in ctx.index.classes.values() if any(b_.rsplit(".", 1)[-1] in ("ClickException", "UsageError", "Exception") for b_ in ctx.index.mro_names(ci)[1:])}
         if out["raised"] is None:
@@ -2571,8 +2586,9 @@ def run_command_witness(ctx):
             i_rej = kinds.index("submit-rejected")
             late = [e for e in ev[i_rej:] if e[0] == "submit" and e[1] in below]
             if late:
-                diffs.append(f"{what}: afterwards the run submits {late[0][1]} with prerequisites {late[0][2]} although {rej[0]}, which it needs, has no job: the scheduler releases "
-                             f"{late[0][1]} at once (or holds it on an old, finished job still on record under that name) and it runs on missing or stale input")
+                diffs.append(f"{what}: afterwards the run submits {late[0][1]} with prerequisites {late[0][2]} although {rej[0]}, which it needs, got no job in this run: the "
+                             f"prerequisite is translated to the id of {rej[0]}'s old, finished job (the workflow ran before), so the scheduler releases {late[0][1]} at once and it "
+                             "runs on stale input")
         if "close-backend" not in kinds or "close-store" not in kinds:
             diffs.append(f"{what}: a state store is not closed on the failure path: the jobs accepted before the failure are forgotten")
     return n, diffs, None
@@ -3678,6 +3694,19 @@ def _click_convert(ctx, fn, opt_long, text):
                 return ("rejected", f"{text!r} is not a valid float")
         elif typ_name in ("str", "click.STRING"):
             return text
+        elif isinstance(idx.lookup(typ_name), ClassInfo) and idx.method(idx.lookup(typ_name), "convert") is not None:
+            # a parameter type written in the package: click calls its convert(value, param, ctx); self.fail(...) raises BadParameter
+            pcls = idx.lookup(typ_name)
+            ip = PureInterp(ctx, hooks={"multiprocessing.cpu_count": lambda: 3, "os.cpu_count": lambda: 3,
+                                        "attr:fail": lambda recv, message, *a, **k: (_ for _ in ()).throw(Raised("BadParameter", str(message)))})
+            try:
+                inst = ip.eval(typ, {}, fn.module) if isinstance(typ, ast.Call) else ip.apply(pcls, [], {}, 0)
+                v = ip.call(idx.method(pcls, "convert"), (text, Obj("click_param", name="num_workers"), Obj("click_context")), {}, self_obj=inst)
+            except Raised as exc:
+                if exc.kind in ("BadParameter", "UsageError"):
+                    return ("rejected", exc.detail)
+                raise Unsupported(f"the parameter type's convert() raises {exc.kind}")
+            return click_callback(ctx, fn, d, v)
         else:
             raise Unsupported(f"click parameter type {typ_name}")
         if (lo is not None and v < lo) or (hi is not None and v > hi):
@@ -3728,7 +3757,7 @@ def eval_workers_command(ctx, text):
 
 def workers_command_witness(ctx):
     diffs, n = [], 0
-    for text in ("1", "2", "7", "2.5", "0.5", "1.0"):
+    for text in ("1", "2", "7", "2.5", "0.5", "1.0", "75%", "50%", "2x", "half"):     # whatever spellings the option's type accepts must give a whole number of cores
         try:
             out = eval_workers_command(ctx, text)
         except Unsupported as exc:
